@@ -829,9 +829,11 @@ pub fn nested_value(depth: usize, object: bool) -> Vec<u8> {
 /// A random unknown member whose (unescaped) key is not a known name and not in `taken`.
 /// Returns (unescaped key, member).
 pub fn rand_unknown(rng: &mut Rng, max_pos: usize, taken: &[String], known: &[&str]) -> (String, Unknown) {
-    let near: [&str; 14] = [
+    // names close to known ones, and '#' names that are NOT single-letter tag lists (digit, punctuation, two letters,
+    // a non-ASCII letter, nothing after the '#'): all of them are unknown members
+    let near: [&str; 24] = [
         "i", "ids", "idx", "kinds", "kin", "contents", "conten", "created_at_", "created_a", "sigs",
-        "pubkeys", "tag", "search", "",
+        "pubkeys", "tag", "search", "", "#0", "#9", "#_", "#", "##", "#ab", "#e2", "#\u{e9}", "e", "#-",
     ];
     let mut key = match rng.below(4) {
         0 => rng.pick(&near).to_string(),
@@ -841,7 +843,7 @@ pub fn rand_unknown(rng: &mut Rng, max_pos: usize, taken: &[String], known: &[&s
             (0..n).map(|_| (b'a' + rng.below(26) as u8) as char).collect()
         }
     };
-    while known.contains(&key.as_str()) || taken.contains(&key) || (key.starts_with('#') && key.chars().count() == 2) {
+    while known.contains(&key.as_str()) || taken.contains(&key) || (key.len() == 2 && key.as_bytes()[0] == b'#' && key.as_bytes()[1].is_ascii_alphabetic()) {
         key.push('_');
     }
     let mut key_text = vec![];
